@@ -12,20 +12,20 @@ import vcommon
 from vcommon import Run, ToolError, log
 
 
-def model_search(run, tier, maxd=3, with_null=False, count=None, label="MC_Search"):
+def model_search(run, tier, maxd=3, with_null=False, count=None, label="MC_Search", cfg="MC_Search_fixed.cfg"):
     """Design level: Search.tla (the engine's PVS / quiescence / root loop transcribed, clock expiring at query k)
     on a generated family of abstract trees x EVERY expiry index; invariants = prefix, sends, record restored,
     score bounds / monotonicity, exactness against Ref at depths <= 3, repetition draw, mate in one."""
     n = count or (300 if tier == "quick" else 3000)
     path = os.path.join(vcommon.BUILD, "trees-%s-%d.ndjson" % (label, os.getpid()))
     gentrees.write_trees(path, vcommon.seed() * 7919 + maxd, n, maxd, 3, with_null)
-    r = vcommon.tlc("MC_Search", "MC_Search_fixed.cfg", env={"TREES": path, "MAXD": str(maxd)}, workers=vcommon.NCPU, xmx="8g", timeout=3000)
+    r = vcommon.tlc("MC_Search", cfg, env={"TREES": path, "MAXD": str(maxd)}, workers=vcommon.NCPU, xmx="8g", timeout=3000)
     os.remove(path)
     if not r["ok"]:
         raise ToolError("Search model run failed:\n" + r["out"][-3000:])
     run.add("states", r["distinct"])
     run.add("transitions", r["states"])
-    run.cov.setdefault("model", []).append({"module": "MC_Search (MC_Search_fixed.cfg)", "trees": n, "max_depth": maxd, "null_move_nodes": with_null,
+    run.cov.setdefault("model", []).append({"module": "MC_Search (%s)" % cfg, "trees": n, "max_depth": maxd, "null_move_nodes": with_null,
                                             "tree_x_expiry_states": r["distinct"], "wall_s": round(r["wall"], 1)})
 
 
@@ -65,6 +65,9 @@ def judge(run, pid, results, kind, also=()):
                               {"type": "scenario", "kind": kind, "cmd": cmd, "k": ev.get("k"), "depth": (ctx or ev).get("D")})
             else:
                 other[prop] = other.get(prop, 0) + 1
+                if sum(other.values()) <= 3:
+                    ev = lines[line - 1]
+                    log("  (other property) %s %s %s | event %s k=%s cmd=%s" % (prop, code, str(detail)[:300], ev.get("ev"), ev.get("k"), ev.get("cmd")))
     if other:
         log("conjuncts of other properties failed in the same trace (not judged here): %s" % other)
     ec = run.cov.setdefault("event_counts", {})
@@ -73,9 +76,9 @@ def judge(run, pid, results, kind, also=()):
     return totals
 
 
-def make_scenarios(h, small, mate, rep, game, label, fam=0):
+def make_scenarios(h, small, mate, rep, game, label, fam=0, deep=0):
     path = os.path.join(vcommon.BUILD, "scen-%s-%d.json" % (label, os.getpid()))
-    vcommon.run_harness(h, ["scen", "--out", path, "--seed", vcommon.seed(), "--small", small, "--mate", mate, "--rep", rep, "--game", game, "--fam", fam])
+    vcommon.run_harness(h, ["scen", "--out", path, "--seed", vcommon.seed(), "--small", small, "--mate", mate, "--rep", rep, "--game", game, "--fam", fam, "--deep", deep])
     return path
 
 
@@ -135,13 +138,25 @@ def c07(tier, replay):
     totals, summ = run_expiry(run, "C07", h, scen, "small,mate,rep,game,fam", 3, 2500 if q else 6000, 300000, 2, "expiry")
     if totals.get("srun", 0) == 0 or totals.get("cut_before_first", 0) == 0:
         raise ToolError("coverage hole: no expiry runs / no run cut before the first improvement")
-    run.level = "fault_enumeration" if False else run.level
+    # searches that run to the END (iteration 99): positions whose root can repeat are searched in no time per depth, so the
+    # reference run reaches the last iteration inside the query budget - lines then run past ply 99 through check
+    # extensions and the null move's ply offset, where the per-ply tables end
+    scen2 = make_scenarios(h, 0, 0, 12 if q else 60, 0, "C07deep", 0, 160 if q else 1200)
+    t2, summ2 = run_expiry(run, "C07", h, scen2, "rep,deep", 4, 40 if q else 200, 400000, 2, "deep")
+    os.remove(scen2)
+    run.cov["searches_run_to_the_last_iteration"] = t2.get("reached_last_iteration", 0)
+    if t2.get("reached_last_iteration", 0) < 3:
+        raise ToolError("coverage hole: fewer than 3 searches reached the last iteration")
     run.cov["expiry_points_enumerated"] = summ["runs"]
     run.cov["scenarios"] = len(summ["scenarios"])
     run.cov["scenarios_with_every_expiry_point"] = sum(1 for s in summ["scenarios"] if s["exhaustive"])
     model_search(run, tier, 3)
     # iteration 4 with null-move nodes (the aborted null-move sub-search is where a sentinel turns into an ordinary bound)
     model_search(run, tier, 4, True, 120 if q else 1200, "MC_Search_null")
+    # the per-ply tables end at MaxPly (3 in this configuration, so that depth-4 trees with check extensions and the null
+    # move's ply offset run past it): nodes beyond are horizon nodes, nothing indexes past the tables, and prefix / sends /
+    # record / score conjuncts still hold at every expiry index
+    model_search(run, tier, 4, True, 100 if q else 1000, "MC_Search_plybound", cfg="MC_Search_plybound.cfg")
     run.cov["rule"] = ("scenarios = random small endgames, mate positions, third-repetition histories and game positions with their history; for each, "
                        "a reference run to the end of iteration 3 under the virtual clock, then ONE RUN PER EXPIRY INDEX k = 0..K (all of them when "
                        "K <= cap, else all below cap/2 plus a random sample); TLC checks per run: infos/sends are prefixes of the reference (or exactly "
@@ -287,10 +302,10 @@ def selfcheck(quick):
     path = os.path.join(vcommon.BUILD, "trees-selfcheck.ndjson")
     gentrees.write_trees(path, 1, 60, 3, 3)
     rc = 0
-    for cfg, inv in (("MC_Search_noguard.cfg", "InvPrefix"), ("MC_Search_repeq.cfg", "InvExact")):
+    for cfg, inv in (("MC_Search_noguard.cfg", "InvPrefix"), ("MC_Search_repeq.cfg", "InvExact"), ("MC_Search_noplyguard.cfg", "InvNoPanic")):
         r = vcommon.tlc("MC_Search", cfg, env={"TREES": path, "MAXD": "3"}, workers=vcommon.NCPU, xmx="8g", timeout=1200)
         m = re.findall(r"Invariant (\w+) is violated", r["out"])
-        if not m:
+        if not m or (cfg == "MC_Search_noplyguard.cfg" and "InvNoPanic" not in m):
             print("search bug variant %s did not fail as expected" % cfg)
             rc = 2
     return rc
